@@ -167,7 +167,9 @@ STRINGLY_SET = '("open$", "closed$", "pending$")'
 
 
 def dry_member(i: int, g: int) -> str:
-    return f"def fn{i}(records{g}):\n" + DRY_BLOCK.replace("$", str(g))
+    # the members of a group also define the same module-level constant (DRY's duplicate-constant detection: its
+    # messages list the OTHER files, so groups of three or more make the listing order observable)
+    return f"RETRY_LIMIT_G{g} = 30\n\n\ndef fn{i}(records{g}):\n" + DRY_BLOCK.replace("$", str(g))
 
 
 def stringly_member(i: int, g: int) -> str:
